@@ -13,6 +13,7 @@ type lval struct {
 	Src  string `json:"src"`
 	Kind string `json:"kind"` // bool num str null undef
 	S    string `json:"s"`    // printed form
+	Exit int    `json:"exit,omitempty"` // sub-shell operands: the exit number it ends with
 }
 
 var falsyWords = []string{"", "0", "null", "false", "no", "off", "fail", "failed", "disabled"}
@@ -31,6 +32,9 @@ func (v lval) truthy() bool {
 	switch v.Kind {
 	case "null", "undef":
 		return false
+	}
+	if v.Exit != 0 {
+		return false // any non-zero exit is false, whatever was printed
 	}
 	return truthyString(v.S)
 }
@@ -140,7 +144,7 @@ func init() {
 		ID:    "C07",
 		Level: "exploration",
 		Rule: "operand pool = the whole falsy table in mixed case and with padding, near misses (nope, 00, offf ...), numbers, booleans, comparison sub-expressions, null and an undefined variable (left operands only); " +
-			"(1) the pool squared under each of && || ?: ?? exhaustively, (2) PRNG trees to depth 4, fully parenthesised, as the right-hand side of an assignment, (3) every str/num/bool pool value judged by `if { out V }`, `out V -> !`, `(V ?: ELSE)`, `(V && true)`, `(V || false)` which must agree; " +
+			"(1) the pool squared under each of && || ?: ?? exhaustively, (2) PRNG trees to depth 4, fully parenthesised, as the right-hand side of an assignment, (4) sub-shell operands that print truthy / falsy text and end with exit 0 or 1 (`${out yes}`, `${out bob; false}`, `${false}` ...) paired with each other and with plain values under && and || exhaustively, (3) every str/num/bool pool value judged by `if { out V }`, `out V -> !`, `(V ?: ELSE)`, `(V && true)`, `(V || false)` which must agree; " +
 			"compared with a reference truthiness function; non-trivial = the expression has an operator; distinct by source text",
 		Assumptions: []string{"an undefined variable or null is only used where the statement defines the outcome (never as the value finally printed from the right-hand side)", "numeric zero is written `0` (0.0 is not in the statement's table)"},
 		Run: func(x *Ctx) {
@@ -182,6 +186,26 @@ func init() {
 						}
 						n := &lnode{op: op, l: &lnode{leaf: a}, r: &lnode{leaf: b}}
 						add("assign", n.src(), n.eval().S, true)
+					}
+				}
+			}
+			// (4) sub-shell operands, which carry an exit number besides their output, under && and ||
+			subs := []lval{
+				{Src: "${out yes}", Kind: "str", S: "yes"}, {Src: "${out 0}", Kind: "str", S: "0"}, {Src: "${out no}", Kind: "str", S: "no"},
+				{Src: "${out bob; false}", Kind: "str", S: "bob", Exit: 1}, {Src: "${out yes; false}", Kind: "str", S: "yes", Exit: 1},
+				{Src: "${false}", Kind: "str", S: "false", Exit: 1}, {Src: "${out off; false}", Kind: "str", S: "off", Exit: 1},
+				strVal("x"), strVal(""), {Src: "0", Kind: "num", S: "0"}, {Src: "1", Kind: "num", S: "1"},
+				{Src: "true", Kind: "bool", S: "true"}, {Src: "false", Kind: "bool", S: "false"},
+			}
+			for _, op := range []string{"&&", "||"} {
+				for i, a := range subs {
+					for j, b := range subs {
+						if i >= 7 && j >= 7 {
+							continue // no sub-shell in the pair
+						}
+						n := &lnode{op: op, l: &lnode{leaf: a}, r: &lnode{leaf: b}}
+						add("assign", n.src(), n.eval().S, true)
+						x.Count("expressions_with_subshell_operands", 1)
 					}
 				}
 			}
